@@ -174,11 +174,43 @@ func (m *Model) tokenClasses(v ssa.Value, d int, seen map[ssa.Value]bool) map[st
 			add(m.returnTokenClasses(c, x.Index, d+1, seen))
 		}
 	case *ssa.Lookup:
-		if g, ok := derefGlobal(x.X); ok && canonGlobalName(g) == "directives" {
+		tab := x.X
+		if p, isP := tab.(*ssa.Parameter); isP {
+			// a table handed to a generic lookup helper: what the (single) caller chain passes
+			if rs := m.resolveUp(p, nil, 0); len(rs) > 0 {
+				allDir := true
+				for _, r := range rs {
+					if g, ok := derefGlobal(r); !ok || canonGlobalName(g) != "directives" {
+						allDir = false
+					}
+				}
+				if allDir {
+					res["(directive token)"] = true
+					break
+				}
+				// several tables share the helper: classify by the call site that reaches this use
+				if m.lookupTableAt != nil {
+					if g, ok := derefGlobal(m.lookupTableAt[p]); ok && canonGlobalName(g) == "directives" {
+						res["(directive token)"] = true
+						break
+					}
+				}
+			}
+		}
+		if g, ok := derefGlobal(tab); ok && canonGlobalName(g) == "directives" {
 			res["(directive token)"] = true
 		} else {
 			res["(computed code token)"] = true
 		}
+	case *ssa.Parameter:
+		// a fallback value passed to a lookup helper
+		if m.lookupTableAt != nil {
+			if v, ok := m.lookupTableAt[x]; ok {
+				add(m.tokenClasses(v, d+1, seen))
+				break
+			}
+		}
+		res["(computed code token)"] = true
 	case *ssa.Call:
 		add(m.returnTokenClasses(x, 0, d+1, seen))
 	case *ssa.UnOp:
@@ -205,10 +237,36 @@ func (m *Model) returnTokenClasses(c *ssa.Call, idx int, d int, seen map[ssa.Val
 		res["(computed code token)"] = true
 		return res
 	}
+	// context: what this call passes for the callee's parameters (tables and fallbacks of lookup helpers)
+	if m.lookupTableAt == nil {
+		m.lookupTableAt = map[*ssa.Parameter]ssa.Value{}
+	}
+	saved := map[*ssa.Parameter]ssa.Value{}
+	for i, a := range c.Call.Args {
+		if i < len(sc.Params) {
+			if old, had := m.lookupTableAt[sc.Params[i]]; had {
+				saved[sc.Params[i]] = old
+			}
+			m.lookupTableAt[sc.Params[i]] = a
+		}
+	}
 	for _, b := range sc.Blocks {
 		if ret, ok := b.Instrs[len(b.Instrs)-1].(*ssa.Return); ok && idx < len(ret.Results) {
-			for k := range m.tokenClasses(ret.Results[idx], d+1, seen) {
+			sub := map[ssa.Value]bool{}
+			for k, v := range seen {
+				sub[k] = v
+			}
+			for k := range m.tokenClasses(ret.Results[idx], d+1, sub) {
 				res[k] = true
+			}
+		}
+	}
+	for i := range c.Call.Args {
+		if i < len(sc.Params) {
+			if old, had := saved[sc.Params[i]]; had {
+				m.lookupTableAt[sc.Params[i]] = old
+			} else {
+				delete(m.lookupTableAt, sc.Params[i])
 			}
 		}
 	}
